@@ -4,6 +4,7 @@ import c_gc
 import c_sched
 import c_api
 import c_txn
+import c_iso
 import thms
 
 TRUSTED = [
@@ -197,6 +198,16 @@ PROPS = {
             "level_text": "Glitch freedom is a theorem about M_sched for every finite DAG, registration order and set of fired sources; the model's update order must equal the real update_node's on random DAGs and on every DAG with <=4 (quick) / <=5 (thorough) nodes x registration orders x fired subsets, and the implementation is separately checked against a direct glitch predicate to find concrete failing graphs.",
             "level_note": "Trusted as for C08; raw Node graphs use a recording update closure (fires iff a dependency fired). API-level lifts/merges are covered under C02/C13.",
             "design_ref": "DESIGN.md section 6, C03"},
+}
+
+PROPS["C19"] = {
+    "modules": ["SodiumVerif.Props.C19"], "audit_import": ["SodiumVerif.Props.C19"],
+    "theorems": ["SodiumVerif.Iso.no_process_state", "SodiumVerif.Iso.ctx_frame"],
+    "run": c_iso.check, "replay": c_iso.replay,
+    "technique": "Lean 4: inventory of global state regenerated from the source (must be empty, by rfl) + frame theorem for products of state machines; two-context differential runs (alone / interleaved / two threads)",
+    "level_text": "no_process_state is a theorem about Gen/Facts.lean, which is regenerated from /repo/src on every run (no static, thread_local!, lazy_static!, once-cell items); ctx_frame: for every interleaving of operations on two contexts each context's state and outputs are what its own operations produce alone. Tie: pairs of random programs are run alone, interleaved on one thread (also inside the other's open transaction) and on two OS threads; per-context outputs and node counts must be identical.",
+    "level_note": "The scanner is lexical (trusted only for what it is). Thread schedules are sampled, not enumerated: a data race inside shared infrastructure outside the library (the global `log` logger, the allocator) is outside the model. With the hooks feature on, the hook module has thread-local counters and one static (the schedule hook): excluded from the scan and unused in these runs.",
+    "design_ref": "DESIGN.md section 6, C19",
 }
 
 for _pid in ["C01", "C02", "C04", "C05", "C10", "C11", "C12", "C13", "C14", "C15", "C17", "C18", "C06", "C07", "C09"]:
